@@ -127,7 +127,7 @@ def _coq_string(s):
 
 def generate(repo, coqdir):
     c = consts(repo)
-    lines = ["(* GENERATED by /verif/gen/translate.py from %s/src/libTMCG.hh -- do not edit *)" % repo,
+    lines = ["(* GENERATED by /verif/gen/translate.py from src/libTMCG.hh -- do not edit *)",
              "From Coq Require Import ZArith.", "Local Open Scope Z_scope.", ""]
     for k in sorted(c):
         lines.append("Definition %s : Z := %d." % (k, c[k]))
